@@ -81,9 +81,12 @@ func (u *UniAttribute) Decode(is *codec.Reader) error {
 		ty   byte
 		err  error
 	)
-	_, err = is.SkipTo(codec.MAP, 0, false)
+	have, err = is.SkipTo(codec.MAP, 0, false)
 	if err != nil {
 		return err
+	}
+	if !have {
+		return nil
 	}
 
 	var length int32 = 0
@@ -91,17 +94,22 @@ func (u *UniAttribute) Decode(is *codec.Reader) error {
 	if err != nil {
 		return err
 	}
+	// every entry takes at least two bytes: an announced length beyond the input (or a negative one) is
+	// an error, not a loop of that many rounds over an exhausted reader
+	if length < 0 || int(length) > is.Len() {
+		return fmt.Errorf("invalid map length %d", length)
+	}
 
 	for i, e := int32(0), length; i < e; i++ {
 		var k string
 		var v []byte
 
-		err = is.ReadString(&k, 0, false)
+		err = is.ReadString(&k, 0, true)
 		if err != nil {
 			return err
 		}
 
-		have, ty, err = is.SkipToNoCheck(1, false)
+		have, ty, err = is.SkipToNoCheck(1, true)
 		if err != nil {
 			return err
 		}
